@@ -38,8 +38,8 @@ def After.ch (old : Option (Option (Err E))) : After M E → Option (Option (Err
 @[simp] theorem afterRecv_gCloseSend (s : State M E) (h t : Bool) (k : After M E) : (afterRecv s h t k).gCloseSend = s.gCloseSend := by cases h <;> cases t <;> cases k <;> rfl
 @[simp] theorem enterAfter_gHalf (s : State M E) (k : After M E) : (enterAfter s k).gHalf = s.gHalf := by cases k <;> rfl
 @[simp] theorem afterRecv_gHalf (s : State M E) (h t : Bool) (k : After M E) : (afterRecv s h t k).gHalf = s.gHalf := by cases h <;> cases t <;> cases k <;> rfl
-@[simp] theorem enterAfter_gFinal (s : State M E) (k : After M E) : (enterAfter s k).gFinal = s.gFinal := by cases k <;> rfl
-@[simp] theorem afterRecv_gFinal (s : State M E) (h t : Bool) (k : After M E) : (afterRecv s h t k).gFinal = s.gFinal := by cases h <;> cases t <;> cases k <;> rfl
+@[simp] theorem enterAfter_gFinals (s : State M E) (k : After M E) : (enterAfter s k).gFinals = s.gFinals := by cases k <;> rfl
+@[simp] theorem afterRecv_gFinals (s : State M E) (h t : Bool) (k : After M E) : (afterRecv s h t k).gFinals = s.gFinals := by cases h <;> cases t <;> cases k <;> rfl
 @[simp] theorem enterAfter_gFault (s : State M E) (k : After M E) : (enterAfter s k).gFault = s.gFault := by cases k <;> rfl
 @[simp] theorem afterRecv_gFault (s : State M E) (h t : Bool) (k : After M E) : (afterRecv s h t k).gFault = s.gFault := by cases h <;> cases t <;> cases k <;> rfl
 @[simp] theorem enterAfter_o2i (s : State M E) (k : After M E) : (enterAfter s k).o2i = k.pc := by cases k <;> rfl
@@ -63,8 +63,11 @@ def After.ch (old : Option (Option (Err E))) : After M E → Option (Option (Err
 @[simp] theorem beginReturn_gDropped (s : State M E) (c : Bool) (e : Option (Err E)) : (beginReturn s c e).gDropped = s.gDropped := rfl
 @[simp] theorem beginReturn_gCloseSend (s : State M E) (c : Bool) (e : Option (Err E)) : (beginReturn s c e).gCloseSend = s.gCloseSend := rfl
 @[simp] theorem beginReturn_gHalf (s : State M E) (c : Bool) (e : Option (Err E)) : (beginReturn s c e).gHalf = s.gHalf := rfl
-@[simp] theorem beginReturn_gFinal (s : State M E) (c : Bool) (e : Option (Err E)) : (beginReturn s c e).gFinal = s.gFinal := rfl
+@[simp] theorem beginReturn_gFinals (s : State M E) (c : Bool) (e : Option (Err E)) : (beginReturn s c e).gFinals = s.gFinals := rfl
 @[simp] theorem beginReturn_gFault (s : State M E) (c : Bool) (e : Option (Err E)) : (beginReturn s c e).gFault = s.gFault := rfl
+@[simp] theorem enterAfter_gLost (s : State M E) (k : After M E) : (enterAfter s k).gLost = s.gLost := by cases k <;> rfl
+@[simp] theorem afterRecv_gLost (s : State M E) (h t : Bool) (k : After M E) : (afterRecv s h t k).gLost = s.gLost := by cases h <;> cases t <;> cases k <;> rfl
+@[simp] theorem beginReturn_gLost (s : State M E) (c : Bool) (e : Option (Err E)) : (beginReturn s c e).gLost = s.gLost := rfl
 @[simp] theorem beginReturn_main (s : State M E) (c : Bool) (e : Option (Err E)) :
     (beginReturn s c e).main = if c then .deferClose e else .deferCancel e := rfl
 
